@@ -78,11 +78,33 @@ def check(R):
             adds = [1 for i, j, st in b.stmts() if st[1].get('op') == 'bin' and st[1].get('b') in ('Add', 'AddWithOverflow')]
             R.expect('P10', fn, f'fabric {role} key is FABRIC_KEYS_START + index', any(x[0] == 'constp' and x[1] == 'persist::FABRIC_KEYS_START' for x in s) and bool(adds), 'FABRIC_KEYS_START + idx', f'{sorted(map(str, s))[:5]}')
         for fn in ('fabric::Fabrics::load_persist', 'fabric::Fabrics::reset_persist'):
-            b = R.body(fn)
-            rng = [t for t in b.calls() if t.d.get('f', '').endswith('RangeInclusive::new')]
-            R.floor(f'index range in {fn}', len(rng), 1)
-            lo, hi = rng[0].d['a'][0].get('k', {}).get('v'), rng[0].d['a'][1].get('k', {}).get('v')
-            R.expect('P6', fn, 'the loop covers every fabric index a store can use (1..=255)', lo == 1 and hi == 255, '1..=255', f'{lo}..={hi}: fabrics stored under an index outside this range are not reloaded / not erased', b.where(rng[0].bb))
+            R.body(fn)
+            rngs = []
+            for q in prims.reachable_fns(F, [fn], depth=2, through_traits=False):
+                qb = F.bodies.get(q)
+                if qb is None or not qb.focus or not q.startswith('fabric::'):
+                    continue
+                for t in qb.calls():
+                    if t.d.get('f', '').endswith('RangeInclusive::new') or t.d.get('f', '').endswith('Range::new'):
+                        rngs.append((qb, t))
+                for i, j, st in qb.stmts():
+                    if st[1].get('op') == 'agg' and st[1].get('adt', '').startswith('core::ops::range::Range'):
+                        rngs.append((qb, None, st, i))
+            R.floor(f'index range reachable from {fn}', len(rngs), 1)
+            for ent in rngs:
+                qb = ent[0]
+                if ent[1] is not None:
+                    lo, hi = ent[1].d['a'][0].get('k', {}).get('v'), ent[1].d['a'][1].get('k', {}).get('v')
+                    incl = ent[1].d['f'].endswith('RangeInclusive::new')
+                    where = qb.where(ent[1].bb)
+                else:
+                    a = ent[2][1]['a']
+                    lo, hi = a[0].get('k', {}).get('v'), a[1].get('k', {}).get('v')
+                    incl = 'Inclusive' in ent[2][1]['adt']
+                    where = qb.where(ent[3])
+                top = hi if incl else (hi - 1 if hi is not None else None)
+                R.expect('P6', fn, 'the loop covers every fabric index a store can use (1..=255)', lo == 1 and top == 255, '1..=255',
+                         f'{lo}..{"=" if incl else ""}{hi} in {qb.fn}: fabrics stored under an index outside this range are not reloaded / not erased', where)
 
     # ---- b --------------------------------------------------------------------
     with R.clause('b'):
